@@ -296,6 +296,9 @@ tv.register("c05-funint", gen_funint, check_funint)
 
 
 def replay(data):
+    if data.get("kind") == "xh-order":
+        from props import c05_xh
+        return c05_xh.replay(data)
     env = tv.fresh_env()
     f = bp.from_bp(data["formula"], env)
     if data["k"] == "lemma":
